@@ -729,6 +729,13 @@ func (g *generator) next(w *World) (Op, bool) {
 			return g.next(w)
 		}
 	}
+	if (g.prof == "pools" || g.prof == "limits" || g.prof == "core") && g.emitted < 3 && g.r.chance(35) {
+		// scripted pool-bounds preamble: a pool at its minimum, multi-allocations that overrun its maximum
+		g.script = g.poolBoundsPreamble(w)
+		if len(g.script) > 0 {
+			return g.next(w)
+		}
+	}
 	if g.prof == "core3" && g.emitted < 3 && g.r.chance(50) {
 		g.script = g.defragPreamble(w)
 		if len(g.script) > 0 {
@@ -800,6 +807,38 @@ func (g *generator) granPreamble(w *World) []Op {
 	}
 	ops = append(ops, img(0, 0, a), img(1, 1, x), img(2, 2, b), mkOp("dimg", 1, 1))
 	ops = append(ops, mkOp("cbuf", 3, 3, r.rangeIncl(1, sm+8), 1, all, 0, 0, 0, 0, 0, 0, 0, 0, 0, 0))
+	return ops
+}
+
+// poolBoundsPreamble creates a custom pool with an explicit block size and tight min/max block counts and
+// drives it over its maximum with multi-allocations, so that the unwind paths (release of blocks created by
+// a failed request, retention of the minimum) are exercised; then fills it with single allocations and
+// frees them oldest-first.
+func (g *generator) poolBoundsPreamble(w *World) []Op {
+	r := g.r
+	nt := len(w.cfg.Dev.Types)
+	t := r.intn(nt)
+	blockSize := r.pick(4, 8, 16) * kib
+	mn := r.pick(0, 1, 1, 2)
+	mx := mn + r.pick(0, 1, 1, 2)
+	if mx == 0 {
+		mx = 1
+	}
+	all := allTypesMask(nt)
+	ops := []Op{mkOp("mkpool", 0, t, 0, blockSize, mn, mx, 0)}
+	size := blockSize*6/10 + r.intn(blockSize/10)
+	// one element per block: mx+1 elements cannot be placed, the request must roll back completely
+	ops = append(ops, mkOp("allocn", 0, mx+1, size, pow2(r, 0, 4), all, 0, 0, 0, 0, 0, 0))
+	if r.chance(60) {
+		ops = append(ops, mkOp("allocn", 8, mx+2, size, 1, all, 0, 0, 0, 0, 0, 0))
+	}
+	for i := 0; i < mx; i++ {
+		ops = append(ops, mkOp("alloc", 16+i, size, 1, all, 0, 0, 0, 0, 0, 0))
+	}
+	ops = append(ops, mkOp("alloc", 30, size, 1, all, 0, 0, 0, 0, 0, 0)) // over the maximum: refused
+	for i := 0; i < mx; i++ {
+		ops = append(ops, mkOp("free", 16+i))
+	}
 	return ops
 }
 
